@@ -465,3 +465,71 @@ Qed.
 
 Theorem ext_unbounded_range : forall o fuel, xtime_range_match fuel o (None, None) = Some false.
 Proof. reflexivity. Qed.
+
+(* ================================================================== (b) find_time_range is the hull of the instances *)
+Lemma xvisited_nonempty : forall o, wf_xevent o -> forall c, xvisited o c -> nonempty_c c.
+Proof.
+  intros o (Hev & _ & Hovr) c [(D & _ & ->)|(v & Hv & ->)]; unfold nonempty_c, fcall; cbn.
+  - destruct (xmaster_block o Hev) as [Hl _]. lia.
+  - specialize (Hovr v Hv). lia.
+Qed.
+
+Lemma hull_finish : forall o h, wf_xevent o -> hinv h (xvisited o) -> hull_ok (fst (final h)) (snd (final h)) (xvisited o).
+Proof.
+  intros o h Hwf Hh. apply hinv_final; [|exact Hh]. intros c Hc. pose proof (xvisited_nonempty o Hwf c Hc) as Hn.
+  split; exists c; (split; [exact Hc|split; [exact Hn|apply xle_refl]]).
+Qed.
+
+Lemma xle_PInf : forall x, xle x PInf = true.
+Proof. intros [| |]; reflexivity. Qed.
+
+Theorem ext_hull : forall o fuel a b, wf_xevent o ->
+    xfind_time_range fuel o = Some (a, b) -> hull_ok a b (xvisited o).
+Proof.
+  intros o fuel a b Hwf H. pose proof Hwf as (Hev & _ & Hovr). pose proof (wf_x_orule o Hwf) as Hor.
+  unfold xfind_time_range, xvisit in H. rewrite over_block, run_hull in H.
+  set (h1 := fold_left (fun st c => hull_add c st) (map over_call (xe_over o)) (None, None)) in *.
+  assert (Hh1 : hinv h1 (oseen o)).
+  { eapply hinv_ext; [|apply (hinv_block (map over_call (xe_over o)) (None, None) (fun _ => False)); cbn; tauto].
+    intros c. cbn beta. rewrite oseen_map. tauto. }
+  assert (Hfin : forall h' (stop : bool), hinv h' (xvisited o) ->
+            (let '(start, end_) := h' in Some (match start with Some s => s | None => MInf end, match end_ with Some e => e | None => PInf end))
+            = Some (a, b) -> hull_ok a b (xvisited o)).
+  { intros [sa sb] stop Hh E. inversion E; subst. exact (hull_finish o (sa, sb) Hwf Hh). }
+  assert (Hloop : forall r, xvisit_set hull_fn fuel o (0, xe_extras o) h1 = Some r -> xe_has_set o = true ->
+            hinv (fst r) (xvisited o)).
+  { intros [h' stop] Hr Hset. destruct (L_hull o Hev Hor fuel _ h1 h' stop _ (sinv_init o) Hh1 Hr) as [_ Hh'].
+    eapply hinv_ext; [|exact Hh']. intros c. cbn beta. rewrite (xvisited_split o Hwf c), Hset. tauto. }
+  cbn [fst snd] in H. unfold xvisit_master in H. destruct (xe_has_set o) eqn:Hset.
+  - destruct (xe_infinite o) eqn:Hinf.
+    + destruct (xfirst fuel o (0, xe_extras o)) as [[d0|]|] eqn:Hf; [| |discriminate].
+      * pose proof (L_first o Hor fuel _ _ (sinv_init o) Hf) as [Hd0 Hmin]. cbn beta iota in Hd0, Hmin.
+        assert (Hv0 : xvisited o (fcall d0 (d0 + xlen o) false)).
+        { apply (xvisited_split o Hwf). rewrite Hset. right. exact Hd0. }
+        assert (Hall : forall c, xvisited o c -> oseen o c \/ xle (Fin d0) (c_s c) = true).
+        { intros c Hc. apply (xvisited_split o Hwf) in Hc. rewrite Hset in Hc. destruct Hc as [Hc|Hc]; [left; exact Hc|right; apply Hmin; exact Hc]. }
+        assert (Hos : forall c, oseen o c -> xvisited o c).
+        { intros c Hc. apply (xvisited_split o Hwf). left. exact Hc. }
+        destruct h1 as [[a1|] [b1|]]; cbn [hinv] in Hh1; try contradiction; unfold hull_inf in H; cbn beta iota in H.
+        -- destruct Hh1 as (He & (c1 & Hc1 & E1) & _).
+           destruct (xlt (Fin d0) a1) eqn:Hlt; inversion H; subst a b; (split; [|split]).
+           ++ intros c Hc. split; [|apply xle_PInf]. destruct (Hall c Hc) as [Hc'|Hc']; [|exact Hc'].
+              eapply xle_trans; [apply xlt_xle; exact Hlt|apply (He c Hc')].
+           ++ intros _. exists (fcall d0 (d0 + xlen o) false). split; [exact Hv0|split; [exact (xvisited_nonempty o Hwf _ Hv0)|reflexivity]].
+           ++ discriminate.
+           ++ intros c Hc. split; [|apply xle_PInf]. destruct (Hall c Hc) as [Hc'|Hc']; [apply (He c Hc')|].
+              eapply xle_trans; [|exact Hc']. unfold xle. rewrite Hlt. reflexivity.
+           ++ intros _. exists c1. split; [exact (Hos c1 Hc1)|split; [exact (xvisited_nonempty o Hwf _ (Hos c1 Hc1))|exact E1]].
+           ++ discriminate.
+        -- inversion H; subst a b. split; [|split].
+           ++ intros c Hc. split; [|apply xle_PInf]. destruct (Hall c Hc) as [Hc'|Hc']; [destruct (Hh1 c Hc')|exact Hc'].
+           ++ intros _. exists (fcall d0 (d0 + xlen o) false). split; [exact Hv0|split; [exact (xvisited_nonempty o Hwf _ Hv0)|reflexivity]].
+           ++ discriminate.
+      * destruct (xvisit_set hull_fn fuel o (0, xe_extras o) h1) as [[h' stop]|] eqn:Hr; [|discriminate].
+        exact (Hfin h' stop (Hloop _ eq_refl eq_refl) H).
+    + destruct (xvisit_set hull_fn fuel o (0, xe_extras o) h1) as [[h' stop]|] eqn:Hr; [|discriminate].
+      exact (Hfin h' stop (Hloop _ eq_refl eq_refl) H).
+  - destruct (xmaster_block o Hev) as [_ Hb]. rewrite Hb, run_calls_single, hull_fn_eq in H.
+    refine (Hfin _ false _ H). eapply hinv_ext; [|apply hinv_add; exact Hh1].
+    intros c. cbn beta. rewrite (xvisited_split o Hwf c), Hset. tauto.
+Qed.
